@@ -71,7 +71,7 @@ type connSpec struct {
 }
 
 type raceSpec struct {
-	Trigger     string        `json:"close_trigger"` // controller | consume-hook
+	Trigger     string        `json:"close_trigger"` // controller | consume-hook | protocols-event
 	ConsumeWait time.Duration `json:"delay_before_consume_lock"`
 	DiscWait    time.Duration `json:"delay_before_disconnect_lock"`
 	Gap         time.Duration `json:"close_starts_after"`
@@ -202,7 +202,9 @@ func (s *state) genCase(i int, raceOnly bool) *kase {
 	}
 	racePlan := func() raceSpec {
 		waits := []time.Duration{0, time.Millisecond, time.Second}
-		switch rng.IntN(4) {
+		switch rng.IntN(5) {
+		case 4: // an event subscriber closes the connection when identify announces the push's protocols
+			return raceSpec{Trigger: "protocols-event", ConsumeWait: pick(rng, 0, 0, time.Millisecond), DiscWait: pick(rng, 0, 0, time.Millisecond)}
 		case 0: // the close starts inside the window between reading the message and taking addrMu
 			return raceSpec{Trigger: "consume-hook", ConsumeWait: pick(rng, waits...), DiscWait: pick(rng, waits...)}
 		case 1: // the disconnect is completely handled while the message waits in front of the lock
